@@ -42,7 +42,7 @@ def path_strategy(kinds=None):
         'array': st.fixed_dictionaries({'kind': st.just('array'), 'u': u, 'drift': drift,
                                         'seed': st.integers(0, 10 ** 6), 'jitter': gen.finite(0, 2),
                                         'as_list': st.booleans()}),
-        'float': st.fixed_dictionaries({'kind': st.just('float'), 'u': u}),
+        'float': st.fixed_dictionaries({'kind': st.just('float'), 'u': u, 'np': st.booleans()}),      # float or numpy.float64
         'int': st.fixed_dictionaries({'kind': st.just('int'), 'u': u}),
     }
     kinds = kinds or list(all_)
@@ -66,7 +66,7 @@ def t_strategy(kinds=None):
                                          'level': level, 'a': gen.finite(0, 0.9), 'b': gen.finite(0.1, 3)}),
         'array': st.fixed_dictionaries({'kind': st.just('array'), 'level': level, 'seed': st.integers(0, 10 ** 6),
                                         'as_list': st.booleans()}),
-        'float': st.fixed_dictionaries({'kind': st.just('float'), 'level': level}),
+        'float': st.fixed_dictionaries({'kind': st.just('float'), 'level': level, 'np': st.booleans()}),
         'int': st.fixed_dictionaries({'kind': st.just('int'), 'level': st.integers(1, 50)}),
     }
     kinds = kinds or list(all_)
@@ -95,7 +95,8 @@ def bp_strategy():
         st.fixed_dictionaries({'kind': st.just('constant'), 'level': gen.finite(0.1, 1.0)}),
         st.fixed_dictionaries({'kind': st.just('custom'), 'a': gen.finite(-0.9, 2)}),
         st.fixed_dictionaries({'kind': st.just('array'), 'a': gen.finite(-0.9, 2), 'as_list': st.booleans()}),
-        st.fixed_dictionaries({'kind': st.just('float'), 'level': gen.finite(0.1, 1.0)}),
+        st.fixed_dictionaries({'kind': st.just('float'), 'level': gen.finite(0.1, 1.0), 'np': st.booleans()}),
+        st.fixed_dictionaries({'kind': st.just('int'), 'level': st.integers(1, 3)}),
     )
 
 
@@ -224,7 +225,7 @@ def stg_path(stg, ax, p, smearing):
         a = path_array(ax, p, ax.T + 1 if smearing else ax.T)
         return a.tolist() if p['as_list'] else a
     if k == 'float':
-        return float(f0)
+        return np.float64(f0) if p.get('np') else float(f0)
     if k == 'int':
         return int(f0)
     raise ValueError(k)
@@ -290,7 +291,7 @@ def stg_t(stg, ax, t):
         a = t_array(ax, t)
         return a.tolist() if t['as_list'] else a
     if k == 'float':
-        return float(t['level'])
+        return np.float64(t['level']) if t.get('np') else float(t['level'])
     if k == 'int':
         return int(t['level'])
     raise ValueError(k)
@@ -363,7 +364,7 @@ def bp_callable(ax, b):
     k = b['kind']
     if k in ('none',):
         return lambda x: np.ones(np.shape(x))
-    if k in ('constant', 'float'):
+    if k in ('constant', 'float', 'int'):
         return lambda x: np.full(np.shape(x), float(b['level']))
     if k in ('custom', 'array'):
         return lambda x: 1.0 + b['a'] * (np.asarray(x) - ax.fmin) / ax.span
@@ -379,7 +380,9 @@ def stg_bp(stg, ax, b, cols=None):
     if k == 'custom':
         return bp_callable(ax, b)
     if k == 'float':
-        return float(b['level'])
+        return np.float64(b['level']) if b.get('np') else float(b['level'])
+    if k == 'int':
+        return int(b['level'])
     if k == 'array':
         fs = ax.fs if cols is None else ax.fs[cols[0]:cols[1]]
         a = bp_callable(ax, b)(fs)
